@@ -173,22 +173,22 @@ func (x *c01Inst) state() string {
 		// closing and reopening reproduces chain and data: open what the calls left behind
 		closed = "closed; "
 		if err := s.Open(); err != nil {
-			return "closed, REOPEN FAILS: " + err.Error() + " " + x.files()
+			return "closed, REOPEN FAILS: " + strings.ReplaceAll(err.Error(), x.dir, "<dir>") + " " + x.files()
 		}
 		if err := s.SetReplicaMode("RW"); err != nil {
-			return "closed, reopened, setmode fails: " + err.Error()
+			return "closed, reopened, setmode fails: " + strings.ReplaceAll(err.Error(), x.dir, "<dir>")
 		}
 		r = s.Replica()
 	}
 	chain, err := r.Chain()
 	if err != nil {
-		return "chain-error:" + err.Error()
+		return "chain-error:" + strings.ReplaceAll(err.Error(), x.dir, "<dir>")
 	}
 	size := r.Info().Size
 	buf := make([]byte, size)
 	live := ""
 	if _, err := s.ReadAt(buf, 0); err != nil {
-		live = "READ-ERROR:" + err.Error()
+		live = "READ-ERROR:" + strings.ReplaceAll(err.Error(), x.dir, "<dir>")
 	} else {
 		live = c01Tags(buf)
 	}
